@@ -20,6 +20,8 @@ rules see.  Each rewrite is semantics-preserving for the code it is applied to (
   C8  a counting loop `i = A; while i < B: ...; i += 1` (nothing else writes i or B, no jump in the body, i not used
       afterwards) becomes `for i in range(A, B): ...`.
 
+  C9  `if a: if b: S` without else branches becomes `if a and b: S` (same short-circuit order).
+
 Line numbers are kept (ast.copy_location), so reports still point into the source file.
 """
 import ast
@@ -189,6 +191,14 @@ class Canon(ast.NodeTransformer):
             t, flipped = _positive(node.test)
             if flipped:
                 node.test, node.body, node.orelse = t, node.orelse, node.body
+        # C9: `if a: if b: S` (no else on either, nothing else in the outer body) is `if a and b: S`
+        while not node.orelse and len(node.body) == 1 and isinstance(node.body[0], ast.If) and not node.body[0].orelse:
+            inner = node.body[0]
+            parts = []
+            for t in (node.test, inner.test):
+                parts.extend(t.values if isinstance(t, ast.BoolOp) and isinstance(t.op, ast.And) else [t])
+            node.test = ast.copy_location(ast.BoolOp(op=ast.And(), values=parts), node.test)
+            node.body = inner.body
         return node
 
     def _expand_choice(self, node, make):
